@@ -151,7 +151,7 @@ pub fn explore(driver: &dyn Driver, props: &BTreeSet<&'static str>, want: &Wants
                 .map(|(id, hist)| {
                     let mut o = StateOut { findings: vec![], succs: vec![], counters: Counters::new(), transitions: 0, executions: 0, digest: 0, errors: vec![], iter_runs: 0, clone_steps: 0 };
                     let sres = driver.state(hist, want);
-                    o.executions += 1;
+                    o.executions += driver.legs();
                     o.iter_runs += sres.iter_runs;
                     if let Some(cr) = &sres.clone {
                         o.clone_steps += cr.steps;
@@ -185,7 +185,7 @@ pub fn explore(driver: &dyn Driver, props: &BTreeSet<&'static str>, want: &Wants
                     };
                     for op in alphabet {
                         let t = driver.trans(hist, *op, want);
-                        o.executions += 1;
+                        o.executions += driver.legs();
                         o.transitions += 1;
                         o.iter_runs += t.iter_runs;
                         if let Some(e) = &t.exec.replay_error {
@@ -196,7 +196,9 @@ pub fn explore(driver: &dyn Driver, props: &BTreeSet<&'static str>, want: &Wants
                             o.findings.push((f, Some(*op)));
                         }
                         if let (Some(post), Some(ret)) = (&t.post, &t.ret) {
-                            if !matches!(ret, Ret::Panic(_)) {
+                            // an object with a mis-linked list is reported (C03/C14 and the policy property) and
+                            // not driven further: library loops on such a structure need not terminate
+                            if !matches!(ret, Ret::Panic(_)) && post.shape == 0 {
                                 let pc = post.canon();
                                 let mut key = canon_of[*id as usize].clone();
                                 key.extend_from_slice(format!("{:?}{:?}", op, ret).as_bytes());
